@@ -65,6 +65,49 @@ func c16Gen(g *G) {
 	g.Emit("c16.run o,o P1;ywq:3000:1;g0;s400;g1;s400;u;w2;a0;a1", "encoded-request-waits-for-write-lock")
 	g.Emit("c16.run o,o P1;g0;w1;ywk:3000:1;n77;s400;g1;s400;x;w2;a1;a0", "encoded-request-waits-for-write-lock")
 	g.Emit("c16.run o,o ywq:3000:1;g0;s400;g1;s400;c(u,x,n78);w2;a1;a0", "encoded-request-waits-for-write-lock")
+	// every service message a server may legitimately send that is a REQUEST to the client or an informational
+	// message (service messages about messages: msgs_state_req, msg_resend_req, msg_resend_ans_req, msgs_state_info,
+	// msgs_all_info, msg_detailed_info, msg_new_detailed_info; answers of service requests: future_salts,
+	// destroy_session_ok/none, rpc_answer_*; a ping) — well-formed, with empty and non-empty id lists, alone, with a
+	// request pending, in a container, gzip_packed, as content-related and as not content-related message — each
+	// followed by ordinary traffic (a probe) that must still be served
+	svc := []string{"Msr1", "Msr0", "Msr3", "Msr64", "Mrr1", "Mrr0", "Mrr2", "Mra1", "Mra0", "Msi1", "Msi0", "Msi5", "Mai2", "Mai0", "Mdi", "Mni",
+		"Mfs1", "Mfs0", "Mfs3", "Mdo", "Mdn", "Mau", "Mar", "Mad", "Mpi"}
+	for _, m := range svc {
+		g.Emit("c16.run o,o "+m+";g1;w1;a1", "service-request-or-information")
+	}
+	for i := 0; i < len(svc); i += 5 {
+		grp := svc[i:min(i+5, len(svc))]
+		var flipped, packed []string
+		for _, m := range grp {
+			flipped = append(flipped, m+"~")
+			packed = append(packed, "z("+m+")")
+		}
+		g.Emit("c16.run o,o g0;w1;"+strings.Join(grp, ";")+";a0;j;g1;w2;a1", "service-request-or-information")
+		g.Emit("c16.run o,o c("+strings.Join(grp, ",")+",p);g1;w1;c("+strings.Join(flipped, ",")+",a1)", "service-request-or-information")
+		g.Emit("c16.run o,o "+strings.Join(packed, ";")+";g1;w1;z(c("+strings.Join(grp, ",")+"));a1", "service-request-or-information")
+	}
+	// service messages whose 32-bit count / length fields carry values a decoder may read as signed: the container
+	// count, the byte length of a container member, the vector counts of msgs_ack, msgs_state_req, msg_resend_req,
+	// msgs_all_info and future_salts at 2^31-1, 2^31, 2^32-1 (and their neighbours), with nothing, one and two
+	// elements behind them; alone, inside a container, gzip_packed, nested
+	edge := []string{"2147483647", "2147483648", "4294967295", "2147483649", "4294967294", "2147483646", "1021", "65536"}
+	for _, kind := range []string{"mc", "vk", "vs", "vr", "va", "vf"} {
+		var bare, one, two []string
+		for _, c := range edge {
+			bare, one, two = append(bare, kind+c), append(one, kind+c+"+1"), append(two, kind+c+"+2")
+		}
+		g.Emit("c16.run o,o "+strings.Join(bare[:3], ";")+";g1;w1;a1", "count-read-as-signed")
+		g.Emit("c16.run o,o "+strings.Join(one[:3], ";")+";g1;w1;a1", "count-read-as-signed")
+		g.Emit("c16.run o,o g0;w1;"+strings.Join(bare[3:], ";")+";"+strings.Join(two[:3], ";")+";a0;j;g1;w2;a1", "count-read-as-signed")
+		g.Emit("c16.run o,o c("+strings.Join(one, ",")+",p);z("+bare[1]+");z("+one[2]+");N2("+bare[2]+");g1;w1;c("+two[1]+",a1)", "count-read-as-signed")
+	}
+	g.Emit("c16.run o,o ml2147483647;ml2147483648;ml4294967295;ml21;ml4294967294;g1;w1;a1", "count-read-as-signed")
+	g.Emit("c16.run o,o c(ml2147483648,p);z(ml4294967295);c(p,ml2147483647);N3(ml2147483648);g1;w1;c(ml4294967295,a1)", "count-read-as-signed")
+	// server msg_ids over the whole unsigned 64-bit range (a server clock far ahead or behind; after 2038 bit 63 is
+	// set): 1 and 3 modulo 4, across 2^63, just below 2^64, near zero
+	g.Emit("c16.run o,o I9223372036854775801;u;x;g0;w1;a0;j;n77;g1;w2;c(u,a1)", "server-msgid-range")
+	g.Emit("c16.run o,o I18446744073709547619;u;b;g0;w1;a0;j;I5;x;g1;w2;a1", "server-msgid-range")
 	nw := g.N(6, 120)
 	for i := 0; i < nw; i++ {
 		// caller 0's write (or the write of an acknowledgement) is slow; the probe encodes meanwhile; one to three
@@ -101,6 +144,32 @@ func c16Gen(g *G) {
 				code = int64(r.U64() % (1 << 32))
 			}
 			hostile = append(append([]string{}, hostile...), fmt.Sprintf("b/%d", code), fmt.Sprintf("b/%d", 65+r.Intn(191)))
+		}
+		if r.Intn(2) == 0 {
+			// service requests / informational messages and counts read as signed among the hostile items
+			extra := []string{svc[r.Intn(len(svc))], svc[r.Intn(len(svc))] + "~", "z(" + svc[r.Intn(len(svc))] + ")"}
+			for q := 0; q < 3; q++ {
+				c := uint32(r.U64())
+				switch r.Intn(4) {
+				case 0:
+					c = 0x80000000 + uint32(r.Intn(3)) - 1
+				case 1:
+					c = 0xffffffff - uint32(r.Intn(3))
+				case 2:
+					c |= 0x80000000
+				}
+				it := fmt.Sprintf("%s%d", []string{"mc", "mc", "vk", "vs", "vr", "va", "vf"}[r.Intn(7)], c)
+				if r.Bool() {
+					it += fmt.Sprintf("+%d", 1+r.Intn(3))
+				}
+				extra = append(extra, it)
+			}
+			extra = append(extra, fmt.Sprintf("ml%d", 21+uint32(r.U64())%(1<<32-21)))
+			hostile = append(append([]string{}, hostile...), extra...)
+		}
+		if r.Intn(6) == 0 {
+			// the server's msg_ids anywhere in the 64-bit range (1 or 3 modulo 4)
+			plan = append(plan, fmt.Sprintf("I%d", (r.U64()|1)%(1<<64-4096)))
 		}
 		if r.Intn(3) == 0 {
 			// make sure the client has written an acknowledgement the server can name
